@@ -540,6 +540,18 @@ func (ex *Exec) assumeZeroStructElems(st *State, elem types.Type, arr Term) {
 func (ex *Exec) newStruct(st *State, t types.Type) Term {
 	r := ex.freshRef(st, "ref")
 	ex.zeroStructAt(st, t, r)
+	// ghost state declared on the type starts at its zero value
+	for _, k := range ghostTypeKeys(t) {
+		for _, g := range ex.ctx.specs.Ghosts {
+			if g.Type == k {
+				if sort, ok := logicalSort(g.Sort); ok && (sort == SInt || sort == SBool || sort == SBytes) {
+					name := "ghost:" + g.Type + "." + g.Name
+					st.Heaps[name] = Store(ex.heap(st, name, ArrSort(sort)), r, zeroTerm(sort))
+					ex.recordWrite(name, LHeap1, r, ArrSort(sort))
+				}
+			}
+		}
+	}
 	return r
 }
 
